@@ -192,3 +192,25 @@ Example C17_stack_nonvacuous :
   exists l n t, stack_flows d = Ok (mkSt (Some l) (Some n) (Some t)) /\
     f_srcbytes l = [7;8;9;10;11;12] /\ f_dstbytes n = [10;0;0;2] /\ f_srcbytes t = [0;53] /\ f_typ t = EndpointUDPPort.
 Proof. do 3 eexists. split; [vm_compute; reflexivity|]. repeat split; vm_compute; reflexivity. Qed.
+
+(* A layer object reused for a sequence of packets (DecodeFromBytes into the same object, fresh
+   slices or one capture buffer overwritten in place): the flow accessor has no memory.  Whenever
+   the decode assigns the address fields, the flow reported afterwards is the flow of the CURRENT
+   packet's header bytes - the one a fresh packet of that layer reports - whatever was decoded
+   before, whatever state the object was in, and whichever way the buffer is handed over. *)
+Theorem C17_seq_current : forall k reuse s pkt al, seq_assign k pkt = Ok (Some al) ->
+  snd (seq_step k reuse s pkt) = layer_flow k pkt.
+Proof. intros k reuse s pkt al H. rewrite (seq_step_current k reuse s pkt al H). apply seq_read_layer, H. Qed.
+Print Assumptions C17_seq_current.
+
+Example C17_seq_nonvacuous :
+  let p1 := [156;64; 39;15; 0;8; 0;0] in let p2 := [34;184; 156;65; 0;8; 0;0] in
+  exists f1 f2, seq_run LUDP true sstate0 [p1; p2] = [Ok f1; Ok f2] /\
+    f_srcbytes f1 = [156;64] /\ f_srcbytes f2 = [34;184] /\
+    (* a failed decode leaves the fields pointing into the overwritten capture buffer *)
+    (exists f3, seq_run LUDP true sstate0 [p1; [1;2;3]] = [Ok f1; Ok f3] /\ f_srcbytes f3 = [1;2]) /\
+    seq_run LUDP false sstate0 [p1; [1;2;3]] = [Ok f1; Ok f1].
+Proof.
+  do 2 eexists. split; [vm_compute; reflexivity|]. split; [reflexivity|]. split; [reflexivity|].
+  split; [eexists; split; vm_compute; reflexivity|vm_compute; reflexivity].
+Qed.
